@@ -478,6 +478,8 @@ func checkC13(c *core.Ctx) {
 		// in the numberNode case: the parse result must not be narrowed unchecked
 		ok := false
 		found := false
+		computedBits, undecided := "", ""
+		var computedExpr ast.Expr
 		// the arm for a literal: in the evaluator or in the worker it delegates to
 		var bodies []ast.Node
 		for _, d := range declClosure(p, pkg, f, 2) {
@@ -500,6 +502,23 @@ func checkC13(c *core.Ctx) {
 						if call, is := k.(*ast.CallExpr); is && len(call.Args) == 3 && strings.HasPrefix(wire.Canon(call.Fun), "strconv.Parse") {
 							if b, isC := constInt(info, call.Args[2]); isC && b == 64 {
 								parse64 = true
+							} else if !isC {
+								// a parameter is R8's business; anything computed is a
+								// width the rule cannot evaluate per instantiation of T
+								isParam := false
+								if id, isId := ast.Unparen(call.Args[2]).(*ast.Ident); isId {
+									if v, isVar := info.ObjectOf(id).(*types.Var); isVar {
+										for _, d := range declClosure(p, pkg, f, 2) {
+											if isParamOf(info, d, v) {
+												isParam = true
+											}
+										}
+									}
+								}
+								if !isParam {
+									computedBits = wire.Canon(call.Args[2])
+									computedExpr = call.Args[2]
+								}
 							}
 						}
 						return true
@@ -527,8 +546,25 @@ func checkC13(c *core.Ctx) {
 					}
 				}
 				ok = !parse64 || rangeTest
+				if computedBits != "" && !rangeTest {
+					undecided = computedBits
+				}
 				return false
 			})
+		}
+		if undecided != "" {
+			// evaluate the width for every type of the evaluator's type set
+			verdict, detail := evalWidthPerInstance(p, pkg, f, computedExpr)
+			switch verdict {
+			case "ok":
+				c.Check("R3", name+" does not narrow a flag literal without a range test", p.Pos(f.Pos()), true, "")
+			case "bad":
+				c.Check("R3", name+" does not narrow a flag literal without a range test", p.Pos(f.Pos()), false,
+					"a literal is parsed at a width computed by "+undecided+" and converted with T(x) without a range test; "+detail+": a value outside the enum's base type is silently truncated instead of rejected")
+			default:
+				c.Undecide("C13/R3: %s parses a flag literal at a width computed by %s and converts the result with T(x) without a range test: whether that width is the width of T for every instantiation could not be evaluated (%s)", name, undecided, detail)
+			}
+			continue
 		}
 		c.Check("R3", name+" does not narrow a flag literal without a range test", p.Pos(f.Pos()), found && ok,
 			"a literal is parsed as a 64-bit integer and converted with T(x): a value outside the enum's base type is silently truncated instead of rejected")
@@ -1827,4 +1863,265 @@ func enclosedByFloatArm(info *types.Info, fd *ast.FuncDecl, call *ast.CallExpr) 
 		return true
 	})
 	return in
+}
+
+// evalWidthPerInstance evaluates an integer expression that may mention the
+// type parameter of fd (bits.Len64(uint64(^T(0))), unsafe.Sizeof(T(0))*8, a
+// call of a parameterless generic helper whose body is one return) for every
+// type in the type set of that parameter's constraint, and compares the value
+// with the width of the type in bits. Go's conversion rules are applied: a
+// signed value converted to a wider unsigned type is sign-extended.
+func evalWidthPerInstance(p *load.Prog, pkg *packages.Package, fd *ast.FuncDecl, e ast.Expr) (verdict, detail string) {
+	info := pkg.TypesInfo
+	if e == nil || fd.Type.TypeParams == nil || len(fd.Type.TypeParams.List) != 1 || len(fd.Type.TypeParams.List[0].Names) != 1 {
+		return "unknown", "the evaluator is not generic in one type parameter"
+	}
+	tpObj, _ := info.Defs[fd.Type.TypeParams.List[0].Names[0]].(*types.TypeName)
+	if tpObj == nil {
+		return "unknown", "type parameter not found"
+	}
+	tp, _ := tpObj.Type().(*types.TypeParam)
+	if tp == nil {
+		return "unknown", "type parameter not found"
+	}
+	var terms []*types.Basic
+	var collect func(t types.Type) bool
+	collect = func(t types.Type) bool {
+		switch u := t.(type) {
+		case *types.Named:
+			return collect(u.Underlying())
+		case *types.Interface:
+			for i := 0; i < u.NumEmbeddeds(); i++ {
+				if !collect(u.EmbeddedType(i)) {
+					return false
+				}
+			}
+			return u.NumEmbeddeds() > 0
+		case *types.Union:
+			for i := 0; i < u.Len(); i++ {
+				if !collect(u.Term(i).Type()) {
+					return false
+				}
+			}
+			return true
+		case *types.Basic:
+			if u.Info()&types.IsInteger == 0 {
+				return false
+			}
+			terms = append(terms, u)
+			return true
+		}
+		return false
+	}
+	if !collect(tp.Constraint()) || len(terms) == 0 {
+		return "unknown", "the constraint is not a union of integer types"
+	}
+	type val struct {
+		bits   uint64 // two's complement, already wrapped to the width
+		width  int
+		signed bool
+	}
+	widthOf := func(b *types.Basic) (int, bool) {
+		switch b.Kind() {
+		case types.Int8:
+			return 8, true
+		case types.Uint8:
+			return 8, false
+		case types.Int16:
+			return 16, true
+		case types.Uint16:
+			return 16, false
+		case types.Int32:
+			return 32, true
+		case types.Uint32:
+			return 32, false
+		case types.Int64, types.Int, types.UntypedInt:
+			return 64, true
+		case types.Uint64, types.Uint, types.Uintptr:
+			return 64, false
+		}
+		return 0, false
+	}
+	wrap := func(bitsv uint64, w int) uint64 {
+		if w >= 64 {
+			return bitsv
+		}
+		return bitsv & (1<<uint(w) - 1)
+	}
+	extend := func(v val) uint64 {
+		if v.signed && v.width < 64 && v.bits&(1<<uint(v.width-1)) != 0 {
+			return v.bits | ^(1<<uint(v.width) - 1)
+		}
+		return v.bits
+	}
+	bad := ""
+	for _, term := range terms {
+		subst := map[*types.TypeParam]*types.Basic{tp: term}
+		var eval func(x ast.Expr, depth int) (val, bool)
+		basicOf := func(t types.Type) *types.Basic {
+			if q, ok := t.(*types.TypeParam); ok {
+				return subst[q]
+			}
+			b, _ := t.Underlying().(*types.Basic)
+			return b
+		}
+		eval = func(x ast.Expr, depth int) (val, bool) {
+			x = ast.Unparen(x)
+			if depth > 12 {
+				return val{}, false
+			}
+			if tv := info.Types[x]; tv.Value != nil {
+				if n, ok := constInt(info, x); ok {
+					return val{bits: uint64(int64(n)), width: 64, signed: true}, true
+				}
+			}
+			switch y := x.(type) {
+			case *ast.UnaryExpr:
+				v, ok := eval(y.X, depth+1)
+				if !ok {
+					return val{}, false
+				}
+				switch y.Op {
+				case token.XOR:
+					return val{bits: wrap(^v.bits, v.width), width: v.width, signed: v.signed}, true
+				case token.SUB:
+					return val{bits: wrap(-v.bits, v.width), width: v.width, signed: v.signed}, true
+				}
+			case *ast.BinaryExpr:
+				a, ok1 := eval(y.X, depth+1)
+				b, ok2 := eval(y.Y, depth+1)
+				if !ok1 || !ok2 {
+					return val{}, false
+				}
+				w, sg := a.width, a.signed
+				if info.Types[y.X].Value != nil && info.Types[y.Y].Value == nil {
+					w, sg = b.width, b.signed
+				}
+				var r uint64
+				switch y.Op {
+				case token.ADD:
+					r = a.bits + b.bits
+				case token.SUB:
+					r = a.bits - b.bits
+				case token.MUL:
+					r = a.bits * b.bits
+				case token.SHL:
+					r = a.bits << (b.bits & 127)
+				case token.AND:
+					r = a.bits & b.bits
+				case token.OR:
+					r = a.bits | b.bits
+				default:
+					return val{}, false
+				}
+				return val{bits: wrap(r, w), width: w, signed: sg}, true
+			case *ast.CallExpr:
+				// conversion
+				if tv := info.Types[y.Fun]; tv.IsType() && len(y.Args) == 1 {
+					b := basicOf(tv.Type)
+					if b == nil {
+						return val{}, false
+					}
+					w, sg := widthOf(b)
+					if w == 0 {
+						return val{}, false
+					}
+					v, ok := eval(y.Args[0], depth+1)
+					if !ok {
+						return val{}, false
+					}
+					return val{bits: wrap(extend(v), w), width: w, signed: sg}, true
+				}
+				fn := wire.Canon(y.Fun)
+				switch fn {
+				case "bits.Len64", "bits.Len32", "bits.Len16", "bits.Len8", "bits.Len":
+					if len(y.Args) != 1 {
+						return val{}, false
+					}
+					v, ok := eval(y.Args[0], depth+1)
+					if !ok {
+						return val{}, false
+					}
+					n := 0
+					for q := v.bits; q != 0; q >>= 1 {
+						n++
+					}
+					return val{bits: uint64(n), width: 64, signed: true}, true
+				case "unsafe.Sizeof":
+					if len(y.Args) != 1 {
+						return val{}, false
+					}
+					b := basicOf(info.TypeOf(y.Args[0]))
+					if b == nil {
+						return val{}, false
+					}
+					w, _ := widthOf(b)
+					if w == 0 {
+						return val{}, false
+					}
+					return val{bits: uint64(w / 8), width: 64, signed: false}, true
+				}
+				// a parameterless helper of the package whose body is one return
+				if len(y.Args) == 0 {
+					var fid *ast.Ident
+					switch fx := ast.Unparen(y.Fun).(type) {
+					case *ast.Ident:
+						fid = fx
+					case *ast.IndexExpr:
+						fid, _ = ast.Unparen(fx.X).(*ast.Ident)
+					}
+					if fid == nil {
+						return val{}, false
+					}
+					callee, _ := info.ObjectOf(fid).(*types.Func)
+					if callee == nil || callee.Pkg() != pkg.Types {
+						return val{}, false
+					}
+					hd := p.Decl(callee)
+					if hd == nil || hd.Body == nil || len(hd.Body.List) != 1 {
+						return val{}, false
+					}
+					ret, ok := hd.Body.List[0].(*ast.ReturnStmt)
+					if !ok || len(ret.Results) != 1 {
+						return val{}, false
+					}
+					// bind the helper's type parameters to the caller's arguments
+					var bound []*types.TypeParam
+					if inst, ok := info.Instances[fid]; ok && inst.TypeArgs != nil {
+						if sig, ok := callee.Type().(*types.Signature); ok && sig.TypeParams() != nil {
+							for i := 0; i < sig.TypeParams().Len() && i < inst.TypeArgs.Len(); i++ {
+								b := basicOf(inst.TypeArgs.At(i))
+								if b == nil {
+									return val{}, false
+								}
+								subst[sig.TypeParams().At(i)] = b
+								bound = append(bound, sig.TypeParams().At(i))
+							}
+						}
+					}
+					v, ok := eval(ret.Results[0], depth+1)
+					for _, q := range bound {
+						delete(subst, q)
+					}
+					return v, ok
+				}
+			}
+			return val{}, false
+		}
+		v, ok := eval(e, 0)
+		if !ok {
+			return "unknown", "the expression uses an operation the rule does not evaluate"
+		}
+		w, _ := widthOf(term)
+		if int64(extend(v)) != int64(w) {
+			if bad != "" {
+				bad += ", "
+			}
+			bad += fmt.Sprintf("for T = %s it evaluates to %d, the type has %d bits", term.Name(), int64(extend(v)), w)
+		}
+	}
+	if bad != "" {
+		return "bad", bad
+	}
+	return "ok", ""
 }
